@@ -87,6 +87,11 @@ let handle (ws : string list) : string = match ws with
   | "litsok" :: r -> let (t, _) = ty r in if C.lits_ok (ct ()) t then "true" else "false"
   | "nocontr" :: r -> let (t, _) = ty r in if C.no_contr (ct ()) t then "true" else "false"
   | ["wfgen"] -> if C.wf_gen (ct ()) then "true" else "false"
+  | ["tableguard"] -> if C.table_guard (ct ()) then "true" else "false"
+  | "typeguard" :: r -> let (t, _) = ty r in if C.type_guard (ct ()) t then "true" else "false"
+  | "transguard" :: r -> let (a, r) = ty r in let (b, r) = ty r in let (c, _) = ty r in
+      if C.trans_guard (ct ()) a b c then "true" else "false"
+  | "meetguard" :: r -> let (a, r) = ty r in let (b, _) = ty r in if C.meet_guard (ct ()) a b then "true" else "false"
   | "frag2" :: r -> let (t, _) = ty r in if C.frag2 (ct ()) t then "true" else "false"
   | ["wf"] -> if C.wf_ct (ct ()) then "true" else "false"
   | "fragup" :: r -> let (t, _) = ty r in if C.frag_up (ct ()) t then "true" else "false"
